@@ -73,6 +73,10 @@ void ProbeUtilities() {
     BlockReader<char> k1{name}; BlockReader<char> k2{k1}; k2 = k1; BlockReader<char> k3{std::move(k1)}; k3 = std::move(k2);
     (void)pr3; (void)pw3; (void)cw3; (void)r3; (void)w3; (void)k3;
   }
+  // a value type whose move cannot throw but whose construction from the caller's arguments can (rule NX on ThreadLocal)
+  struct ThrowingInit { ThrowingInit(int) {} ThrowingInit(ThrowingInit&&) noexcept {} ThrowingInit& operator=(ThrowingInit&&) noexcept { return *this; } };
+  ThreadLocal<ThrowingInit, ThreadLocalSlot<Slotted, 7>> ti{1};
+  ti.Initialize(2); (void)ti.Get(); ti.Clear();
   ThreadLocal<int> a{1};
   ThreadLocal<std::string, ThreadLocalTypeSlot<Slotted>> b{"x"};
   ThreadLocal<int, ThreadLocalIndexSlot<3>> c;
